@@ -3,6 +3,7 @@ import SwcVerif.Props.C08BranchTree
 import SwcVerif.Refine.ResampleTree2
 import SwcVerif.Props.C16Tree
 import SwcVerif.Refine.Node
+import SwcVerif.Proofs.Represent
 /-! # C16 — what the translated `TreeSmoother.__call__` leaves in the coordinate columns of a well-formed tree -/
 namespace C16Tree2
 open Gen.Algo Py Resample RefineSmoothTree C08 Trav Branches
@@ -391,10 +392,114 @@ theorem generated_resample_tree_wf (r : Rose) (pids : List Int) (h : C06.IsTree 
 
 end
 
+section
+variable {σ : Type} [Inhabited σ] (resample : σ → List Int → σ × List Int)
+  (pair : σ → List (List Int) → List Int → σ × List ((List Int) × Int)) (dupFirst dupLast : List Int → Int → Bool)
+
+/-- `PairOK` + every child handed back at most once when the children are distinct (a matching, as the library's greedy `pair` is: `C16.pair_exact`) -/
+def PairOK1 : Prop := PairOK pair ∧ ∀ (s : σ) brs cs, cs.Nodup → ((pair s brs cs).2.map (·.2)).Nodup
+
+/-- `rep_of_ranked` with the size bound: the rose tree has at most as many key nodes as the table has rows -/
+theorem rep_of_ranked_sized (tid tpid : List Int) (branches : Py.Dict Int (List (List Int))) (hid : tid = Sub.rangeI tpid.length)
+    (h0 : 0 < tpid.length) (hp : PairOK1 pair) (rk : Int → Nat)
+    (hrk : ∀ j c : Int, 0 ≤ j → c ∈ tableKids (Sub.rangeI tpid.length) tpid j → rk c < rk j) :
+    ∃ root, Rep pair dupFirst dupLast tid tpid branches root 0 ∧ root.size ≤ tpid.length := by
+  subst hid
+  have hk : ∀ x y : Int, (0 ≤ x ∧ x.toNat < tpid.length) → y ∈ tableKids (Sub.rangeI tpid.length) tpid x →
+      (0 ≤ y ∧ y.toNat < tpid.length) ∧ rk y < rk x := by
+    intro x y hx hy
+    obtain ⟨hc0, hc1, _⟩ := (C06.mem_tableKids tpid x y).1 hy
+    exact ⟨⟨hc0, hc1⟩, hrk x y hx.1 hy⟩
+  obtain ⟨root, hrep, hnd, hdesc⟩ := rep_exists_sized pair dupFirst dupLast _ tpid branches (tableKids (Sub.rangeI tpid.length) tpid)
+    (fun h => 0 ≤ h ∧ h.toNat < tpid.length) rk
+    (fun h hd => ⟨h, RefineNode.node_children_spec _ tpid h hd.1 (by omega), RefineNode.idx_rangeI _ h hd.1 (by omega),
+      fun s s' => hp.1.1 s s' _ _, fun s => ⟨hp.1.2 s _ _, hp.2 s _ _ (Represent.tableKids_nodup _ tpid h)⟩⟩)
+    hk
+    (fun x x' y h1 h2 => by
+      obtain ⟨_, _, e1⟩ := (C06.mem_tableKids tpid x y).1 h1
+      obtain ⟨_, _, e2⟩ := (C06.mem_tableKids tpid x' y).1 h2
+      rw [← e1, ← e2])
+    (rk 0 + 1) 0 ⟨le_refl _, by simpa using h0⟩ (by omega)
+  refine ⟨root, hrep, ?_⟩
+  rw [← idsBT_length]
+  have hsub : idsBT root ⊆ Sub.rangeI tpid.length := by
+    intro x hx
+    have := (Desc.dom_rk _ _ rk hk (hdesc x hx) ⟨le_refl _, by simpa using h0⟩).1
+    exact (C06.mem_rangeI _ _).2 this
+  have := (List.subperm_of_subset hnd hsub).length_le
+  simpa [Sub.rangeI] using this
+
+end
+
+section
+variable {σ : Type} [Inhabited σ] (resample : σ → List Int → σ × List Int)
+  (pair : σ → List (List Int) → List Int → σ × List ((List Int) × Int)) (dupFirst dupLast : List Int → Int → Bool)
+
+theorem length_le_flatMap_tail : ∀ brs : List (List Int), (∀ b ∈ brs, 2 ≤ b.length) → brs.length ≤ (brs.flatMap List.tail).length
+  | [], _ => by simp
+  | b :: bs, h => by
+    have h1 := h b (by simp)
+    have h2 := length_le_flatMap_tail bs (fun b' hb' => h b' (by simp [hb']))
+    simp only [List.flatMap_cons, List.length_append, List.length_cons, List.length_tail]
+    omega
+
+/-- a tree has fewer branches than nodes -/
+theorem branches_length_le (r : Rose) (pids : List Int) (h : C06.IsTree r pids) : (C08.branchesOf r).length ≤ r.size := by
+  have hg := C16Tree2.good_tree r pids h
+  have h1 := length_le_flatMap_tail (C08.branchesOf r) (fun b hb => (hg b hb).1)
+  have hsub : (C08.branchesOf r).flatMap List.tail ⊆ r.ids := by
+    intro x hx
+    obtain ⟨b, hb, hxb⟩ := List.mem_flatMap.1 hx
+    exact C08.branch_mem r b hb x (List.mem_of_mem_tail hxb)
+  have h2 := (List.subperm_of_subset (C16Tree2.tails_nodup r h.1.2).1 hsub).length_le
+  have h3 : r.ids.length = pids.length := by simpa [Sub.rangeI] using h.2.1.length_eq
+  have h4 := C06.isTree_size h
+  omega
+
+/-- **the resampled tree is a well-formed sorted tree — for EVERY well-formed tree, every branch-resampler callback and every pairing callback
+that is a state-independent matching of children (`PairOK1`), for EVERY fuel `≥ 2 n + 1`**: the generated `Resampler.__call__`
+(`bt_from_tree`, the resampler on every branch, `bt_assemble`) does not raise or run out of fuel and returns a table with ids `0 .. m-1`, a
+`C07.WF` parent column, root first, every parent an earlier row, `1 + weight root` rows for a rose tree `root` that the resampled branch tree
+represents (`Rep`), with at most as many key nodes as the tree has branches + 1.  No hypothesis on the resampled branch tree is left. -/
+theorem generated_resample_tree_wf_full (r : Rose) (pids : List Int) (h : C06.IsTree r pids) (hp : PairOK1 pair) (cbs : σ) :
+    ∃ root : BT, root.size ≤ (C08.branchesOf r).length + 1 ∧ ∀ F : Nat,
+      ∃ s' nid npid, resam_tree resample pair dupFirst dupLast (2 * r.size + F + 1) (Sub.rangeI pids.length) pids cbs = some (s', (nid, npid)) ∧
+        C07.WF npid ∧ npid.length = 1 + weight root ∧ nid = (List.range npid.length).map (fun (k : Nat) => (k : Int)) ∧
+        npid.head? = some (-1) ∧ ∀ k (h : k < npid.length), 0 < k → 0 ≤ npid[k] ∧ npid[k] < (k : Int) := by
+  obtain ⟨groups, hm, _⟩ := C08.branchTree_model_spec r pids h
+  let M : Branches.BranchTreeM :=
+    ⟨-1 :: (C08.branchesOf r).map (fun b => (((0 :: (C08.branchesOf r).map (fun b => b.getLastD 0)).idxOf (b.headD 0) : Nat) : Int)),
+      0 :: (C08.branchesOf r).map (fun b => b.getLastD 0), groups⟩
+  have ht : ∀ F, bt_from_tree (2 * r.size + F + 1) (Sub.rangeI pids.length) pids = some (RefineBranchTree.toObj M) := fun F => by
+    rw [C08.generated_fromTree_eq_model r pids h F, hm]; rfl
+  obtain ⟨root, hrep, hsz⟩ := rep_of_ranked_sized pair dupFirst dupLast (RefineBranchTree.toObj M).id (RefineBranchTree.toObj M).pid
+    (mapDict resample cbs [] (RefineBranchTree.toObj M).branches).2
+    (by simp [M, RefineBranchTree.toObj, Py.range, Sub.rangeI]) (by simp [M, RefineBranchTree.toObj]) hp _ (branchTree_ranked r pids h)
+  have hsz' : root.size ≤ (C08.branchesOf r).length + 1 := by simpa [M, RefineBranchTree.toObj] using hsz
+  have hb := branches_length_le r pids h
+  have h1 : 1 ≤ r.size := by
+    have := C06.isTree_size h
+    have h2 := h.2.2.2
+    cases hpd : pids with
+    | nil => simp [hpd] at h2
+    | cons a t => simp [hpd] at this; omega
+  exact ⟨root, hsz', fun F => generated_resample_tree_wf_partial resample pair dupFirst dupLast root _ _ pids cbs _ (ht F) (by omega) hrep⟩
+
+end
+
 /-- non-vacuity: the pairing used in the kernel-evaluated example of `Props/C16Tree.lean` (branches and children in order) satisfies `PairOK`;
 so `generated_resample_tree_wf` applies to it on every tree, e.g. on the Y-shaped tree evaluated there -/
 example : PairOK (σ := Nat) (fun s bs cs => (s, List.zip bs cs)) :=
   ⟨fun _ _ _ _ => rfl, fun _ _ _ _ hpr => (List.of_mem_zip hpr).2⟩
+theorem zip_snd_sublist {α β : Type} : ∀ (bs : List α) (cs : List β), ((List.zip bs cs).map Prod.snd).Sublist cs
+  | [], cs => by simp
+  | _ :: _, [] => by simp
+  | b :: bs, c :: cs => by simpa using zip_snd_sublist bs cs
+
+/-- the pairing of the kernel-evaluated example (branch `i` with child `i`) is a matching -/
+example : PairOK1 (σ := Nat) (fun s bs cs => (s, List.zip bs cs)) :=
+  ⟨⟨fun _ _ _ _ => rfl, fun _ _ _ _ hpr => (List.of_mem_zip hpr).2⟩,
+    fun _ bs cs hcs => hcs.sublist (zip_snd_sublist bs cs)⟩
 example : C06.IsTree (.node 0 [.node 1 [.node 2 [], .node 3 []]]) [-1, 0, 1, 1] := by
   refine ⟨⟨?_, by decide⟩, by decide, rfl, rfl⟩
   simp [Agrees, AgreesL, tableKids, Rose.id, Sub.rangeI, List.range, List.range.loop]
